@@ -18,6 +18,8 @@ Inductive ty :=
 | TStruct (fields : list (str * ty)) (deny_unknown : bool)
 | TEnum (name : str) (variants : list (str * vshape))
 | TAny | TIgnored
+| TSpanned (t : ty)             (* serde_saphyr::Spanned<T> *)
+| TTree                         (* untyped tree whose every child is a Spanned<tree> *)
 with vshape :=
 | VsUnit | VsNewtype (t : ty) | VsTuple (ts : list ty) | VsStruct (fields : list (str * ty)).
 
@@ -25,7 +27,8 @@ Inductive val :=
 | VNull | VBool (b : bool) | VInt (z : Z) | VFloat (c : fclass) | VChar (c : N) | VStr (s : str)
 | VBytes (b : list N) | VUnit | VNone | VSome (v : val)
 | VSeq (l : list val) | VMap (l : list (val * val))
-| VStruct (l : list (str * val)) | VVariant (name : str) (payload : val).
+| VStruct (l : list (str * val)) | VVariant (name : str) (payload : val)
+| VSpanned (referenced defined : loc) (v : val).
 
 Inductive dup_policy := DupError | DupFirstWins | DupLastWins.
 Record dcfg := mkDcfg { dc : cfg; dc_dup : dup_policy }.
@@ -636,6 +639,7 @@ Fixpoint val_eqb (a b : val) {struct a} : bool :=
        | _, _ => false
        end) l l'
   | VVariant n v, VVariant n' v' => str_eqb n n' && val_eqb v v'
+  | VSpanned r d v, VSpanned r' d' v' => loc_eqb r r' && loc_eqb d d' && val_eqb v v'
   | _, _ => false
   end.
 
@@ -880,8 +884,24 @@ Fixpoint deser (fuel : nat) (c : dcfg) (kemn : bool) (t : ty) (x : src) {struct 
       | other => other
       end
     | TEnum name variants => deser_enum f c name variants x
-    | TAny | TIgnored =>
+    | TSpanned t' =>
+      (* fn deserialize_yaml_spanned: both locations are captured before the node is consumed *)
+      match src_peek x with
+      | NErr e => DErr e
+      | NSome e x' =>
+        match deser f c false t' x' with
+        | DOk v x2 => DOk (VSpanned (src_reference_location x') (ev_loc e) v) x2
+        | other => other
+        end
+      | NNone x' =>
+        match deser f c false t' x' with
+        | DOk v x2 => DOk (VSpanned (src_reference_location x') (src_last_location x') v) x2
+        | other => other
+        end
+      end
+    | TAny | TIgnored | TTree =>
       let ign := match t with TIgnored => true | _ => false end in
+      let child := match t with TTree => TSpanned TTree | _ => t end in
       match src_peek x with
       | NErr e => DErr e
       | NNone x' => DOk VNull x'
@@ -896,12 +916,12 @@ Fixpoint deser (fuel : nat) (c : dcfg) (kemn : bool) (t : ty) (x : src) {struct 
           end
         end
       | NSome (ESeqStart _ _ _ _) x' =>
-        match deser_seq f c (SchedAll t) x' with
+        match deser_seq f c (SchedAll child) x' with
         | DOk v x'' => DOk (if ign then VNull else v) x''
         | other => other
         end
       | NSome (EMapStart _ _) x' =>
-        match deser_map f c (MMap t t false) x' with
+        match deser_map f c (MMap child child false) x' with
         | DOk v x'' => DOk (if ign then VNull else v) x''
         | other => other
         end
